@@ -60,11 +60,18 @@ fn a_pattern<const M: usize>(mask: u32) -> (Vec<usize>, Vec<usize>) {
 /// allocates K with a size computed from the patterns, and with a symbolic A pattern the position
 /// checks did not finish in 25-30 min; all numeric VALUES are symbolic.  Several A patterns per harness.
 fn maps_check<const M: usize, const NNZA: usize>(cones: &CompositeCone<f64>, pid: u8, triu: bool) {
-    // A patterns: dense first column + top of second; last row only; empty first column; scattered
     let full: u32 = (1u32 << (2 * M)) - 1;
-    let masks = [full, (1u32 << (M - 1)) | (1u32 << (2 * M - 1)), full & !((1u32 << M) - 1), 0b1001_0110_1001 & full];
-    for &mask in masks.iter() {
-        maps_check_one::<M>(cones, pid, triu, mask);
+    if NNZA == 0 {
+        // layouts with a sparse cone expansion: its index maps live in a heap Vec of enums inside
+        // LDLDataMap (not constant-propagated, see DESIGN 6.2.9), so these runs are kept small:
+        // one A pattern (first and last row of column 0, last row of column 1)
+        maps_check_one::<M>(cones, pid, triu, 1u32 | (1u32 << (M - 1)) | (1u32 << (2 * M - 1)));
+    } else {
+        // A patterns: dense; last row only; empty first column; scattered
+        let masks = [full, (1u32 << (M - 1)) | (1u32 << (2 * M - 1)), full & !((1u32 << M) - 1), 0b1001_0110_1001 & full];
+        for &mask in masks.iter() {
+            maps_check_one::<M>(cones, pid, triu, mask);
+        }
     }
     kani::cover!(true, "all A patterns visited");
 }
@@ -259,16 +266,16 @@ maps_harness!(c11_maps_znn_p4_tril, 3, 2, [ZeroConeT(1), NonnegativeConeT(2)], 4
 maps_harness!(c11_maps_nnsoc3_p1_triu, 4, 3, [NonnegativeConeT(1), SecondOrderConeT(3)], 1, true, 48);
 maps_harness!(c11_maps_nnsoc3_p5_tril, 4, 3, [NonnegativeConeT(1), SecondOrderConeT(3)], 5, false, 48);
 // layout [SOC5] (m = 5, sparse expansion: two extra rows/columns)
-maps_harness!(c11_maps_soc5_p3_triu, 5, 3, [SecondOrderConeT(5)], 3, true, 48);
-maps_harness!(c11_maps_soc5_p2_tril, 5, 3, [SecondOrderConeT(5)], 2, false, 48);
+maps_harness!(c11_maps_soc5_p0_triu, 5, 0, [SecondOrderConeT(5)], 0, true, 26);
+maps_harness!(c11_maps_soc5_p2_tril, 5, 0, [SecondOrderConeT(5)], 2, false, 26);
 // layout [Exp] (m = 3, dense nonsymmetric block) and [NN1, SOC5, Zero1]
 maps_harness!(c11_maps_exp_p4_triu, 3, 2, [ExponentialConeT()], 4, true, 48);
-maps_harness!(c11_maps_nnsoc5z_p1_tril, 7, 3, [NonnegativeConeT(1), SecondOrderConeT(5), ZeroConeT(1)], 1, false, 48);
+maps_harness!(c11_maps_nnsoc5z_p1_tril, 7, 0, [NonnegativeConeT(1), SecondOrderConeT(5), ZeroConeT(1)], 1, false, 30);
 
 // layout [SOC3, SOC5]: a sparse-expanded cone AFTER a cone with a dense Hs block (row offsets of the
 // expansion come from the cone ranges, not from the packed block ranges)
-maps_harness!(c11_maps_soc2soc5_p1_triu, 7, 2, [SecondOrderConeT(2), SecondOrderConeT(5)], 1, true, 48);
-maps_harness!(c11_maps_expsoc5_p0_tril, 8, 2, [ExponentialConeT(), SecondOrderConeT(5)], 0, false, 48);
+maps_harness!(c11_maps_soc2soc5_p0_triu, 7, 0, [SecondOrderConeT(2), SecondOrderConeT(5)], 0, true, 30);
+maps_harness!(c11_maps_expsoc5_p0_tril, 8, 0, [ExponentialConeT(), SecondOrderConeT(5)], 0, false, 34);
 
 /// translation validation of the hook constructor: CompositeCone without the printing-only map
 /// agrees with the real constructor on every field the solver uses (run natively, not under Kani)
